@@ -34,7 +34,8 @@ tvars == <<dur, pend, gens, hist, done, ack, fl, now, conf, l, cflags, real, sna
 Rec == ndJsonDeserialize(IOEnv.TRACE)
 Ev == Rec[l]
 Keys == 1 .. conf.nk
-NoReal == [on |-> FALSE, units |-> {}, ok |-> TRUE, err |-> "", kv |-> <<>>, len |-> 0, extra |-> 0, now |-> 0]
+NoReal == [on |-> FALSE, units |-> {}, ok |-> TRUE, err |-> "", kv |-> <<>>, len |-> 0, extra |-> 0, now |-> 0,
+           at |-> <<>>, free |-> {}]
 NoSnap == [on |-> FALSE, recs |-> <<>>, free |-> <<>>, usage |-> 0, len |-> 0]
 
 (* ---- JSON -> abstract values ---- *)
@@ -50,14 +51,14 @@ Wr(w) == IF w.kind = "d" THEN [kind |-> "d", at |-> w.at, c |-> [i \in 1 .. Len(
 
 TInit == /\ l = 1 /\ dur = EmptyImage /\ pend = <<>> /\ gens = <<>>
          /\ hist = <<>> /\ done = <<>> /\ ack = <<>> /\ fl = <<>> /\ now = 0
-         /\ conf = [fmt |-> 3, ttl |-> FALSE, nk |-> 0]
+         /\ conf = [fmt |-> 3, ttl |-> FALSE, nk |-> 0, cc |-> TRUE]
          /\ real = NoReal /\ snap = NoSnap /\ dropping = FALSE /\ dropFailed = FALSE
          /\ cflags = {}
 
 Same(vs) == UNCHANGED vs
 
 TStart == /\ Ev.e = "init"
-          /\ conf' = [fmt |-> Ev.fmt, ttl |-> Ev.ttl, nk |-> Ev.nk]
+          /\ conf' = [fmt |-> Ev.fmt, ttl |-> Ev.ttl, nk |-> Ev.nk, cc |-> Ev.cc]
           /\ now' = Ev.now
           /\ hist' = [k \in 1 .. Ev.nk |-> <<0>>]
           /\ done' = [k \in 1 .. Ev.nk |-> 1]
@@ -125,16 +126,26 @@ TDrop == \/ /\ Ev.e = "drop_begin" /\ dropping' = TRUE /\ dropFailed' = FALSE
             /\ ack' = IF ~dropFailed THEN [k \in Keys |-> MaxN(ack[k], fl[Len(fl)][k])] ELSE ack
             /\ real' = NoReal /\ snap' = NoSnap
             /\ Same(<<dur, pend, gens, hist, done, fl, now, conf, dropFailed>>)
-         \/ /\ Ev.e \in {"abandon", "settled", "refill"}
+         \/ /\ Ev.e \in {"abandon", "refill", "reads", "fault", "heal"}
             /\ real' = NoReal /\ snap' = NoSnap
             /\ Same(<<dur, pend, gens, hist, done, ack, fl, now, conf, dropping, dropFailed>>)
+
+\* C19: without any flush, everything completed `settle` ago must be durable and retired
+TSettled == /\ Ev.e = "settled"
+            /\ ack' = done
+            /\ snap' = SnapOf(Ev.snap)
+            /\ real' = NoReal
+            /\ Same(<<dur, pend, gens, hist, done, fl, now, conf, dropping, dropFailed>>)
 
 TRec == /\ Ev.e = "rec"
         /\ real' = [on |-> TRUE,
                     units |-> {<<Ev.units[i][1], Ev.units[i][2]>> : i \in 1 .. Len(Ev.units)},
                     ok |-> Ev.res.ok, err |-> Ev.res.err,
                     kv |-> [k \in Keys |-> Ev.res.kv[k]], len |-> Ev.res.len, extra |-> Ev.res.extra,
-                    now |-> Ev.now]
+                    now |-> Ev.now,
+                    at |-> [k \in Keys |-> IF Ev.res.ok THEN Ev.res.at[k] ELSE 0],
+                    free |-> UNION {Ev.res.free[i][1] .. (Ev.res.free[i][1] + Ev.res.free[i][2] - 1)
+                                      : i \in 1 .. Len(Ev.res.free)}]
         /\ snap' = NoSnap
         /\ Same(<<dur, pend, gens, hist, done, ack, fl, now, conf, dropping, dropFailed>>)
 
@@ -167,10 +178,11 @@ FlagsOf(d, p, gs, hs, ak, t, cf) ==
               \cup (IF r.ghosts # {} THEN {"ghost"} ELSE {})
          : S \in SubsetsOf(p)}
 
-Changes == Ev.e \in {"init", "call", "tick", "w", "fsync", "flush_end", "drop_end"}
+Changes == IF conf'.cc THEN Ev.e \in {"init", "call", "tick", "w", "fsync", "flush_end", "drop_end", "settled"}
+           ELSE Ev.e \in {"flush_end", "drop_end", "settled"}
 TNext == /\ l <= Len(Rec) /\ l' = l + 1
          /\ (TStart \/ TGen \/ TCall \/ TRet \/ TTick \/ TWrite \/ TFsync \/ TFlushBegin \/ TFlushEnd
-             \/ TDrop \/ TRec)
+             \/ TDrop \/ TRec \/ TSettled)
          /\ cflags' = IF Changes THEN FlagsOf(dur', pend', gens', hist', ack', now', conf') ELSE cflags
 TSpec == TInit /\ [][TNext]_tvars
 
@@ -187,6 +199,15 @@ RealOpens == real.on => real.ok
 RealWindow == (real.on /\ real.ok) => \A k \in Keys : real.kv[k] >= 0 /\ Exposable(k, real.kv[k], real.now)
 RealNoGhost == (real.on /\ real.ok) => (real.extra = 0 /\ \A k \in Keys : real.kv[k] # -1)
 RealCount == (real.on /\ real.ok) => real.len = Cardinality({k \in Keys : real.kv[k] # 0}) + real.extra
+\* C05: a store obtained by recovery from a crash image is exactly partitioned too
+RealPartition ==
+  (real.on /\ real.ok /\ \A k \in Keys : real.kv[k] >= 0) =>
+    LET live == {k \in Keys : real.kv[k] > 0}
+        ext(k) == real.at[k] .. (real.at[k] + gens[real.kv[k]].n - 1) IN
+    /\ \A k \in live : real.at[k] >= DS /\ real.at[k] + gens[real.kv[k]].n <= DE
+    /\ \A k1, k2 \in live : k1 # k2 => ext(k1) \cap ext(k2) = {}
+    /\ \A k \in live : ext(k) \cap real.free = {}
+    /\ (UNION {ext(k) : k \in live}) \cup real.free = Blocks
 \* conformance of recovery.rs with the abstract reader (a deviation, not a verdict)
 RecConforms ==
   real.on =>
@@ -220,6 +241,12 @@ Partition ==
     /\ (UNION {ExtOf(r) : r \in R}) \cup FreeSet = Blocks
     /\ \A r \in R : r.g = Latest(r.k) /\ dur.blk[r.at] = H(r.g, r.n)
     /\ Len(snap.recs) = snap.len
+
+\* C09: reads keep returning the latest accepted values while the device fails, and a flush on
+\* the healed device succeeds (or reports that the file must be reopened)
+LastEv == Rec[l - 1]
+ReadsServe == (l > 1 /\ LastEv.e = "reads") => LastEv.bad = 0
+HealWorks == (l > 1 /\ LastEv.e = "heal") => LastEv.ok
 
 NoUnknownRegion == \A i \in 1 .. Len(pend) : pend[i].kind # "x"
 
